@@ -339,6 +339,17 @@ def d5(prog: Program, chk: Check) -> None:
 
 
 
+def d7(prog: Program, chk: Check) -> None:
+    chk.rule("D7", "the augmented MPS keeps the gammas and lambdas it is given (value-preserving "
+             "conversions only: dtype / layout conversion, copy, reshape, diagonal of a diagonal "
+             "matrix, defaults): the PT-TEBD back end keeps the weight of the state in its "
+             "unnormalised lambdas, so a rescaling or 'normalisation by convention' on the way in "
+             "multiplies the trace of every reduced density matrix of a run continued from a "
+             "saved chain state by a constant", floor=2)
+    from rules.valueflow import containers_keep_values
+    containers_keep_values(prog, chk, "D7", which={"AugmentedMPS"})
+
+
 def run(prog: Program, chk: Check) -> None:
     chk.explanation = (
         "Claims C04 IN PART: the clauses that hold by construction. D1 every Lindblad dissipator "
@@ -364,3 +375,4 @@ def run(prog: Program, chk: Check) -> None:
     chk.call(d5, prog, chk)
     from rules.c03 import m7
     chk.call(m7, prog, chk, rule="D6")
+    chk.call(d7, prog, chk)
